@@ -34,7 +34,7 @@ def run(ctx):
         ev = vlib.read_ndjson(tr)
         seen |= {key(e) for e in ev}
         ctx.cov["samples"] += [ev[len(ev) // 2], ev[-1]]
-        for f in fails:
+        for f in fails[:100]:      # the first failures are enough to decide and to replay
             e = ev[f["i"] - 1]
             ctx.report(classify(e, f["mon"]), {"driver": "h-programs c15 " + mode, "event": e})
     # 3. wide tier: u128 totals up to 2^128-1, deltas at +-2^127 (Apalache, unbounded integers)
@@ -46,7 +46,7 @@ def run(ctx):
     ctx.evaluations += len(wev)
     seen |= {key(e) for e in wev}
     ctx.cov["samples"].append(wev[0])
-    for i in res["bad"]:
+    for i in res["bad"][:100]:
         e = wev[i - 1]
         ctx.report(classify(e, "Wide"), {"driver": "h-programs c15 wide", "event": e})
     if res["drift"]:
